@@ -315,7 +315,8 @@ def find_shallow(
             # Try to use commit graph first if available
             if commit_graph:
                 graph_parents = commit_graph.get_parents(sha)
-                if graph_parents is not None:
+                # A stale commit graph may still describe pruned commits
+                if graph_parents is not None and sha in store:
                     result = graph_parents
                     parents[sha] = result
                     return result
@@ -399,6 +400,9 @@ def get_depth(
         parents = None
         if commit_graph:
             parents = commit_graph.get_parents(e)
+            if parents is not None and e not in store:
+                # A stale commit graph may still describe pruned commits
+                parents = None
 
         if parents is None:
             # Fall back to loading the object
@@ -3882,6 +3886,9 @@ def _collect_ancestors(
             parents = None
             if commit_graph:
                 parents = commit_graph.get_parents(e)
+                if parents is not None and e not in store:
+                    # A stale commit graph may still describe pruned commits
+                    parents = None
 
             if parents is None:
                 # Fall back to loading the object
